@@ -6,5 +6,5 @@ func init() {
 			"no configuration reaches an unsupported node accessor (C01.cap), the node-variant table is consistent (C01.mgr) and the public wrapper forwards faithfully (C01.deleg). "+
 			"NOT decided: conformance of whole sequences when eviction interleaves, BulkGet/InvalidateAll beyond one loop iteration, iteration order.",
 		[]string{"composition: operations that map related states to related states and return the model's result compose over finite sequences, given that eviction/expiration only remove entries and report them (C06)", "hashmap.Map.Compute runs its callback exactly once under the bucket lock (C15)"},
-		ruleC01Step, ruleC03Deadline, ruleC01Mgr, ruleC01Deleg, ruleC01Cap, ruleC10TableC10, ruleC10Inv, ruleLoadLemma, ruleLoadOps, ruleBulkOps, ruleC03Filter, ruleC15CopyAll, ruleC15Once)
+		ruleC01Step, ruleC03Deadline, ruleC01Mgr, ruleC01Deleg, ruleC01Cap, ruleC10TableC10, ruleC10Inv, ruleC10Distribute, ruleC10Finisher, ruleLoadLemma, ruleLoadOps, ruleBulkOps, ruleC03Filter, ruleC15CopyAll, ruleC15Once)
 }
